@@ -73,7 +73,8 @@ class FileSystemLoader(BaseLoader):
 
     def _read(self, source_path: Path) -> tuple[str, float]:
         try:
-            with source_path.open(encoding=self.encoding) as fd:
+            # Keep line endings as they are in the file, like `from_string` does.
+            with source_path.open(encoding=self.encoding, newline="") as fd:
                 source = fd.read()
             return source, source_path.stat().st_mtime
         except OSError as err:
